@@ -153,6 +153,8 @@ class C10(Prop):
         if rng.random() < 0.2:
             # the broker charged other fees when the sizer was built (and during the earlier calls); its fee model is replaced before this call
             c['warm_fee'] = rng.choice([['zero'], ['pct', 0.08, 0.0], ['pct', 0.001, 0.005], ['pct', 0.2, 0.0]])
+        if rng.random() < 0.15 and 0.0 <= c['param'] <= 1.0:
+            c['warm_param'] = rng.choice([0.0, 0.05, 0.5, 1.0, 0.25])
         return c
 
     def gen(self, rng, tier):
